@@ -89,7 +89,7 @@ def run_tasks(tasks, nproc):
 
 
 # ------------------------------------------------------------------ cross-check
-def crosscheck(hs, seed, per_harness):
+def crosscheck(hs, seed, per_harness, tier="thorough"):
     """CPython differential: run each harness natively on random inputs. Any failing
     check there is either a genuine violation or an engine mismatch; returns
     {(harness, ci, label): inputs}."""
@@ -99,16 +99,15 @@ def crosscheck(hs, seed, per_harness):
     rng = random.Random(seed)
     for h in hs:
         for ci, case in enumerate(h.case_list()):
+            if not h.in_tier(case, tier):
+                continue
             for _ in range(per_harness):
                 api.STATE.mode = "random"
                 api.STATE.rng = rng
                 api.STATE.inputs = {}
                 api.STATE.failures = []
                 try:
-                    r = h.fn(*case)
-                    if hasattr(r, "send"):
-                        import asyncio
-                        asyncio.run(r)
+                    engine.run_native(h, case)
                     n += 1
                 except api.AssumeFailed:
                     continue
@@ -135,6 +134,7 @@ def main(argv):
     nproc = int(os.environ.get("VERIF_NPROC", "16"))
     t0 = time.time()
     hs, _mods = load_contracts(prop)
+    all_hs = hs
     hs = [h for h in hs if tier == "thorough" or h.tier == "quick"]
     only = os.environ.get("VERIF_ONLY")
     if only:
@@ -145,8 +145,9 @@ def main(argv):
         return 3
     known = load_known(prop)
     check_ms = 20000 if tier == "quick" else 120000
-    tasks = [(prop, h.name, ci, h.float_mode, None, max(check_ms, h.check_ms))
-             for h in hs for ci in range(len(h.case_list()))]
+    tasks = [(prop, h.name, ci, h.float_mode, None, max(check_ms, h.check_ms), {"budget_s": h.budget_s})
+             for h in hs for ci, case in enumerate(h.case_list()) if h.in_tier(case, tier)]
+    n_deferred = sum(1 for h in all_hs for case in h.case_list() if not h.in_tier(case, tier))
     results = run_tasks(tasks, nproc)
     byh = {h.name: h for h in hs}
 
@@ -312,7 +313,7 @@ def main(argv):
 
     # ---- CPython differential cross-check of the engine ------------------------------
     per = 30 if tier == "quick" else 300
-    cc_found, cc_n = crosscheck(hs, seed, per)
+    cc_found, cc_n = crosscheck(hs, seed, per, tier)
     failed_keys = set(groups.keys())
     for (hname, ci, label), inputs in cc_found.items():
         if (hname, ci, label) in failed_keys:
@@ -321,6 +322,27 @@ def main(argv):
             mismatches.append(f"{hname}[{ci}]: native harness raised on {inputs}: {label}")
         else:
             mismatches.append(f"{hname}[{ci}] '{label}' was discharged but fails natively on {inputs}")
+
+    # ---- native checks of trusted library contracts (bounded, never counted as proved) ----
+    from .harness import NATIVE
+    native_report = []
+    for nc in NATIVE:
+        if nc.prop != prop or (tier == "quick" and nc.tier != "quick"):
+            continue
+        if only and not any(o in nc.name for o in only.split(",")):
+            continue
+        try:
+            nr = nc.fn(seed, 150 if tier == "quick" else 1500)
+        except Exception:  # noqa: BLE001
+            errors.append(f"native check {nc.name} crashed: " + traceback.format_exc(limit=6))
+            continue
+        native_report.append({"check": nc.name, "kind": "bounded (seeded native run of the real code)",
+                              "evaluations": nr["evaluations"], "failures": len(nr["failures"])})
+        if nr["evaluations"] == 0:
+            errors.append(f"native check {nc.name}: zero evaluations")
+        for f in nr["failures"][:3]:
+            path = write_replay(prop, nc.name, 0, (), f["label"], f["witness"], "native run of the real code", True, functions, native=True)
+            violations.append((f["label"], path, True))
 
     wall = time.time() - t0
     # ---- report ------------------------------------------------------------------
@@ -351,8 +373,8 @@ def main(argv):
             "undecided": undecided[:50], "known_findings_seen": [k["what"] for k in known_seen],
             "crosscheck_cases": cc_n, "vacuity_covers": covers,
             "samples": samples or [{"note": "all obligations discharged by simplification"}],
-            "deferred_to_thorough": 0 if tier == "thorough" else sum(
-                len(h.case_list()) for h in load_contracts(prop)[0] if h.tier != "quick"),
+            "deferred_to_thorough": n_deferred,
+            "native_checks": native_report,
         },
         "assumptions": ASSUMPTIONS,
         "wall_s": round(wall, 2),
@@ -363,16 +385,16 @@ def main(argv):
         json.dump(ev, fh, indent=1, default=str)
     print(f"{prop} {tier}: {n_ok}/{n_obl} obligations discharged, {len(violations)} violations, "
           f"{len(known_seen)} known findings, {len(undecided)} undecided, {wall:.1f}s")
-    if mismatches or errors:
-        return 3
     if violations:
         return 1
+    if mismatches or errors:
+        return 3
     if undecided:
         return 2
     return 0
 
 
-def write_replay(prop, hname, ci, case, label, witness, verifier_out, reproduced, functions):
+def write_replay(prop, hname, ci, case, label, witness, verifier_out, reproduced, functions, native=False):
     os.makedirs(os.path.join(ROOT, "replays"), exist_ok=True)
     body = {
         "property": prop, "harness": hname, "case_index": ci, "case": [repr(c) for c in case],
@@ -380,6 +402,7 @@ def write_replay(prop, hname, ci, case, label, witness, verifier_out, reproduced
         "verifier_output": verifier_out,
         "functions": sorted(f["function"] for f in functions.values()),
         "replay_cmd": f"./check {prop} --replay <this file>",
+        "native_check": native,
     }
     hsh = hashlib.sha1(json.dumps([hname, ci, label], sort_keys=True).encode()).hexdigest()[:10]
     path = os.path.join(ROOT, "replays", f"{prop}-{hname}-{hsh}.json")
@@ -392,6 +415,17 @@ def do_replay(prop, path):
     from . import engine
     body = json.load(open(path))
     hs, _ = load_contracts(prop)
+    if body.get("native_check"):
+        from .harness import NATIVE
+        nc = next(x for x in NATIVE if x.name == body["harness"])
+        nr = nc.fn(int((body.get("inputs") or {}).get("seed", 0)), 1500)
+        labels = [f["label"] for f in nr["failures"]]
+        print(f"replay native check {nc.name}: failures {labels}")
+        if body["obligation"] in labels:
+            print(f"VIOLATION property={prop} replay={path}")
+            return 1
+        print("not reproduced on the current tree")
+        return 0
     h = next(x for x in hs if x.name == body["harness"])
     case = h.case_list()[body["case_index"]]
     fails, skipped, err = engine.replay_native(h, case, body.get("inputs") or {})
